@@ -186,10 +186,7 @@ func literal(s string, fd int, decimal bool) (m *big.Int, excess, ok bool) {
 	if !isDigits(abs) || (abs != "0" && abs[0] == '0') {
 		return nil, false, false
 	}
-	if neg && abs == "0" && strings.Trim(fp, "0") == "" {
-		// "-0", "-0.0": not canonical; callers never generate it in judged classes
-		return nil, false, false
-	}
+	// "-0" and "-0.0" are spellings of zero (RFC 7950 14: integer-value = ("-" non-negative-integer-value) / ...)
 	if len(fp) > fd {
 		return nil, true, true
 	}
